@@ -67,6 +67,8 @@ impl BackendInternal {
             return Ok(0);
         }
 
+        #[cfg(feature = "verif-hooks")]
+        super::verif::hold("be_req.reply_wait");
         let (reply, body, rfds) = self.sock.recv_body::<VhostUserU64>()?;
         if !reply.is_reply_for(hdr) || rfds.is_some() || !body.is_valid() {
             return Err(Error::InvalidMessage);
